@@ -375,8 +375,16 @@ theorem C02_e2e_grid_ellipsis (ty : Xdr.Ty) (shape : List Nat) (vals : List Xdr.
   variable, concatenates `dds ‖ "Data:\n" ‖ xdr` (`Xdr.body`, C05), and on the client side
   `safe_dds_and_data`'s split (`Xdr.splitBody`), the DDS parser (`Dds.parseDds`, on the text *without* its final
   newline, as the client receives it), the conversion of the parsed declaration to the decoder's declaration
-  (`E2E.tmplOfDataset`) and `Xdr.decImpl`.  Remaining hypothesis about text: `E2E.TextOk` — the printed DDS is
-  ASCII and no newline in it is followed by `D` (decidable per dataset; checked on every real body). -/
+  (`E2E.tmplOfDataset`) and `Xdr.decImpl`.  That the printed DDS is ASCII and that `\nData:\n` cannot start inside
+  it (`E2E.TextOk`) is *proved* from the names being in C07's domain (`C02_e2e_text_ok`), not assumed. -/
+
+/-- the DDS the server prints for the constrained variable is ASCII and none of its newlines is followed by `D`
+    (so `safe_dds_and_data` splits at the right place and the ASCII decode is lossless), for every DAP2 type, shape
+    and names in C07's domain -/
+theorem C02_e2e_text_ok (dsName name : Dds.Text) (dims : List Dds.Text) (ty : Xdr.Ty) (cshape : List Nat)
+    (hds : Dds.NameOk dsName) (hn : Dds.NameOk name) (hdn : ∀ x ∈ dims, Dds.NameOk x) :
+    E2E.TextOk (E2E.answerDs dsName name dims ty cshape) :=
+  E2E.textOk_answerDs dsName name dims ty cshape hds hn hdn
 
 /-- **(B) array through the response text, no Ellipsis**: the values decoded are numpy's `source[pre][idx]`, and
     the declaration the client holds is the printed one: dataset and variable name, parser dtype of `ty`, the
@@ -387,14 +395,13 @@ theorem C02_e2e_array_text (dsName name : Dds.Text) (dims : List Dds.Text) (ty :
     (hl : idx.length ≤ shape.length)
     (hv : ValidList shape (padPre pre shape.length) (npExpand idx none shape.length))
     (hds : Dds.NameOk dsName) (hn : Dds.NameOk name) (hdn : ∀ x ∈ dims, Dds.NameOk x)
-    (hd : dims = [] ∨ dims.length = shape.length)
-    (htext : ∀ cshape, E2E.TextOk (E2E.answerDs dsName name dims ty cshape)) :
+    (hd : dims = [] ∨ dims.length = shape.length) :
     ∃ cshape vs,
       E2E.numpyIndex shape vals (padPre pre shape.length) (npExpand idx none shape.length) = some (cshape, vs) ∧
       E2E.fetchArrayText dsName name dims ty shape vals pre idx
         = .ok (Dds.normDs (E2E.answerDs dsName name dims ty cshape), .tuple [E2E.dataOf cshape vs], []) :=
   E2E.fetchArrayText_spec dsName name dims ty shape vals pre idx _ hw hpl
-    (fun cshape hc => by rw [fixSlice_noEll idx cshape h (by omega), hc]) hv hds hn hdn hd htext
+    (fun cshape hc => by rw [fixSlice_noEll idx cshape h (by omega), hc]) hv hds hn hdn hd
 
 theorem C02_e2e_array_text_ellipsis (dsName name : Dds.Text) (dims : List Dds.Text) (ty : Xdr.Ty) (shape : List Nat)
     (vals : List Xdr.Val) (pre : List PSlice) (a b : List Idx)
@@ -402,14 +409,13 @@ theorem C02_e2e_array_text_ellipsis (dsName name : Dds.Text) (dims : List Dds.Te
     (ha : NoEll a) (hb : NoEll b) (hl : a.length + b.length ≤ shape.length)
     (hv : ValidList shape (padPre pre shape.length) (npExpand a (some b) shape.length))
     (hds : Dds.NameOk dsName) (hn : Dds.NameOk name) (hdn : ∀ x ∈ dims, Dds.NameOk x)
-    (hd : dims = [] ∨ dims.length = shape.length)
-    (htext : ∀ cshape, E2E.TextOk (E2E.answerDs dsName name dims ty cshape)) :
+    (hd : dims = [] ∨ dims.length = shape.length) :
     ∃ cshape vs,
       E2E.numpyIndex shape vals (padPre pre shape.length) (npExpand a (some b) shape.length) = some (cshape, vs) ∧
       E2E.fetchArrayText dsName name dims ty shape vals pre (a ++ Idx.ell :: b)
         = .ok (Dds.normDs (E2E.answerDs dsName name dims ty cshape), .tuple [E2E.dataOf cshape vs], []) :=
   E2E.fetchArrayText_spec dsName name dims ty shape vals pre _ _ hw hpl
-    (fun cshape hc => by rw [fixSlice_ell a b cshape ha hb (by omega), hc]) hv hds hn hdn hd htext
+    (fun cshape hc => by rw [fixSlice_ell a b cshape ha hb (by omega), hc]) hv hds hn hdn hd
 
 def exVals : List Xdr.Val := [.num 10, .num 11, .num 12, .num 13, .num 14, .num 15, .num 16, .num 17, .num 18, .num 19]
 
@@ -463,7 +469,7 @@ example : (E2E.fetchGrid true .int32 [2, 3] exGridVals exGridMaps [] [Idx.int 1]
   cases h1
   exact ⟨hlen, h2⟩
 
-/-- the text hypothesis of (B) holds for `Dataset {\n    Int16 a[m0 = 2];\n} ds;` and the names are in C07's domain -/
+/-- `TextOk` on a concrete text, by computation: `Dataset {\n    Int16 a[m0 = 2];\n} ds;` and the names are in C07's domain -/
 example : E2E.TextOk (E2E.answerDs "ds".toList "a".toList ["m0".toList] .int16 [2]) := by
   intro s0 h
   have hp : Dds.printDs (E2E.answerDs "ds".toList "a".toList ["m0".toList] .int16 [2])
